@@ -78,3 +78,60 @@ Example C13_derived_names_nonvacuous :
                   (bs "c", TPlain KNot, bs "a")] = true /\
   names_distinct [(bs "a", TFile (Some (bs "txt")), []); (bs "b", TFile None, bs "a.txt")] = false.
 Proof. vm_compute. split; reflexivity. Qed.
+
+(* ---- the rewritten record has the shape of the original.  Stated level by
+   level for every type, value and state; every recursive step of move_val is
+   itself a move_val call, so the statements apply at every depth. ---- *)
+
+(* values whose type holds no file are returned as they are, state untouched *)
+Theorem C13_nonfile_values_unchanged : forall ps t key on outrel v s,
+  is_fd (kind_of t) = false -> move_val ps t key on outrel v s = (v, s).
+Proof. exact move_val_plain_lemma. Qed.
+Print Assumptions C13_nonfile_values_unchanged.
+
+(* a file-typed leaf stays a leaf: null, the value it was, or a path string *)
+Theorem C13_file_leaf_stays_leaf : forall ps outrel fname v s,
+  let v' := fst (move_file ps outrel fname v s) in
+  v' = JNull \/ v' = v \/ exists p, v' = JStr p.
+Proof. exact move_file_leaf_lemma. Qed.
+Print Assumptions C13_file_leaf_stays_leaf.
+
+Theorem C13_array_length_preserved : forall ps e key on outrel l s,
+  exists l', fst (move_val ps (TArr e) key on outrel (JArr l) s) = JArr l'
+             /\ length l' = length l.
+Proof. exact move_val_array_lemma. Qed.
+Print Assumptions C13_array_length_preserved.
+
+(* no key of a typed map is lost or invented (json.Unmarshal keeps the last
+   binding of a repeated key; keys come out sorted) *)
+Theorem C13_map_keys_preserved : forall ps e key on outrel kvs s,
+  kind_of (TMap e) = KDir ->
+  exists o, fst (move_val ps (TMap e) key on outrel (JObj kvs) s) = JObj o
+            /\ map fst o = isort bytes_leb (map fst (dedup_last kvs)).
+Proof. exact move_val_map_lemma. Qed.
+Print Assumptions C13_map_keys_preserved.
+
+Theorem C13_struct_members_by_name : forall ps ms key on outrel kvs s,
+  kind_of (TStruct ms) = KDir ->
+  exists o, fst (move_val ps (TStruct ms) key on outrel (JObj kvs) s) = JObj o
+            /\ ((dedup_last kvs = [] /\ o = [])
+                \/ map fst o = isort bytes_leb (map m_id ms)).
+Proof. exact move_val_struct_lemma. Qed.
+Print Assumptions C13_struct_members_by_name.
+
+Theorem C13_top_level_keys_preserved : forall ps params m outrel s,
+  map fst (fst (handle_outs ps params m outrel s))
+  = map m_id (filter (fun p => match assoc_get (m_id p) m with Some _ => true | None => false end) params).
+Proof. exact handle_outs_keys. Qed.
+Print Assumptions C13_top_level_keys_preserved.
+
+Example C13_shape_nonvacuous :
+  let ps := [bs "R"; bs "ps"] in
+  let f1 := [bs "R"; bs "ps"; bs "w"; bs "f1"] in
+  let t := TMap (TStruct [(bs "b", TFile (Some (bs "txt")), []); (bs "a", TPlain KNot, [])]) in
+  let v := JObj [(bs "k2", JObj [(bs "a", JNum 7 0); (bs "b", JStr (render f1))]); (bs "k1", JNull)] in
+  kind_of t = KDir /\
+  fst (move_val ps t (bs "m") [] [bs "outs"] v (init_st [(f1, NFile (bs "x"))]))
+  = JObj [(bs "k1", JNull);
+          (bs "k2", JObj [(bs "a", JNum 7 0); (bs "b", JStr (bs "/R/ps/outs/m/k2/b.txt"))])].
+Proof. vm_compute. split; reflexivity. Qed.
